@@ -22,6 +22,7 @@ fn limit_for(len: usize) -> usize { 32 * len + 256 }
 
 /// Totality + size bound + work bound on arbitrary input. Returns the rendering.
 fn render_bounded(input: &[u8]) -> Result<String, vcore::Fail> {
+    let _case = crate::total::case_guard("minicbor::display", input);
     let mut sink = Bounded { out: String::new(), limit: limit_for(input.len()), refused: false };
     verif::arm(64 * input.len() as u64 + 1024);
     let r = write!(sink, "{}", minicbor::display(input));
@@ -132,9 +133,45 @@ fn truncated(g: &mut Gen, st: &mut Stats) -> CaseResult {
     Ok(())
 }
 
+/// Deep nesting chains (to 10^5 levels) of nine shapes: the rendering must be the documented notation all the way down.
+fn deep_chains(i: u64, st: &mut Stats) -> CaseResult {
+    st.eval();
+    const DEPTHS: [usize; 12] = [1, 2, 3, 17, 100, 1000, 1400, 2100, 4100, 5000, 20_000, 100_000];
+    let kind = (i as usize) % vcore::gen::CHAIN_KINDS;
+    let depth = DEPTHS[(i as usize / vcore::gen::CHAIN_KINDS) % DEPTHS.len()];
+    let (bytes, want, _) = vcore::gen::chain(kind, depth);
+    if depth <= 3 {
+        // harness sanity: the closed-form notation agrees with the tree renderer on shallow chains
+        let (it, used) = vcore::item::parse(&bytes).map_err(|e| vcore::Fail::new("harness-bug", format!("chain {} ill-formed: {:?}", short_hex(&bytes), e)))?;
+        ensure!(used == bytes.len() && it.render() == want, "harness-bug", "chain notation {:?} differs from the tree renderer {:?}", want, it.render());
+    }
+    let got = render_bounded(&bytes)?;
+    if got != want {
+        let k = got.bytes().zip(want.bytes()).position(|(a, b)| a != b).unwrap_or(got.len().min(want.len()));
+        return Err(vcore::Fail::new("wrong-rendering", format!("display of a chain of kind {} and depth {} ({} bytes) differs from the documented notation at offset {} of {}: got ..{:?}.., expected ..{:?}..", kind, depth, bytes.len(), k, want.len(), &got[k.saturating_sub(10) .. (k + 30).min(got.len())], &want[k.saturating_sub(10) .. (k + 30).min(want.len())])))
+    }
+    st.nontrivial_enum(1);
+    st.class(match depth { 0 ..= 100 => "chain/depth<=100", 101 ..= 5000 => "chain/depth<=5000", _ => "chain/depth>5000" });
+    if depth == 17 { st.sample(i, || format!("{} -> {}", short_hex(&bytes), want)) }
+    Ok(())
+}
+
+/// Replay entry for abnormal exits: the recorded input through display in a fresh process.
+fn raw_input(g: &mut Gen, st: &mut Stats) -> CaseResult {
+    st.eval();
+    let _ = g.byte();
+    let input = g.rest().to_vec();
+    let _ = render_bounded(&input);
+    Ok(())
+}
+
 pub fn subs() -> Vec<Sub> {
     let n = space().len();
     vec![
+        Sub { prop: "C19", name: "deep-chains", rule: "nine shapes of nesting chains (tags, definite / indefinite arrays, arrays in first position, maps in key and in value position, tag + indefinite array, indefinite maps, alternating framings) x depths 1 .. 100 000: exactly the documented notation (closed form, cross-checked with the tree renderer on shallow chains), within the size and step bounds",
+              kind: Kind::Enumerate { quick: 9 * 12, thorough: 9 * 12, f: deep_chains, complete_quick: true, complete_thorough: true } },
+        Sub { prop: "C19", name: "raw-input", rule: "replay entry for abnormal exits: a recorded input through display in a fresh process",
+              kind: Kind::Random { quick: 0, thorough: 0, tape: 16, f: raw_input } },
         Sub { prop: "C19", name: "short-inputs", rule: "all inputs of length <= 2 (thorough: <= 3): no panic, output <= 32*len+256 bytes, step budget 64*len+1024",
               kind: Kind::Enumerate { quick: 1 + 256 + 65536, thorough: 1 + 256 + 65536 + (1 << 24), f: short_inputs, complete_quick: true, complete_thorough: true } },
         Sub { prop: "C19", name: "extreme-heads", rule: "all 256 initial bytes x 10 argument patterns (extreme and boundary declared lengths) x 4 tails",
